@@ -133,7 +133,17 @@ Definition c07_prop (k : c07_case) : bool :=
             end
         end
       else if filt =? 1 then
-        final_fold (if mode =? 1 then match cur with Some cu => Some (ri (cu_blk cu)) | None => None end else None) events
+        final_fold (if mode =? 1 then match cur with Some cu => Some (ri (cu_blk cu)) | None => None end else None) events &&
+        (* "every canonical block from the start point on": from a block number (not relative to the head) or through a
+           target cursor the first final block delivered is the first canonical block at or above the start block *)
+        (if ((mode =? 0) && (0 <=? start)%Z) || (mode =? 2) then
+           (* finality announcements of the live phase for blocks below the start block are set aside, as in the statement *)
+           match filter (fun e => abs_start first start 0 <=? bnum (eblk e)) events,
+                 filter (fun b => abs_start first start 0 <=? bnum b) canon with
+           | e :: _, f :: _ => bid (eblk e) =? bid f
+           | _, _ => true
+           end
+         else true)
       else true
   end.
 
